@@ -81,6 +81,10 @@ def split (j : Json) : Except String Json := do
   let r := splitOrbitals (← J.nat (← J.field j "n")) (← J.natList (← J.field j "occ"))
   .ok (Json.arr #[J.ofNatList r.1, J.ofNatList r.2])
 
+def spinBlock (j : Json) : Except String Json := do
+  .ok (Json.bool (spinBlockApplies (← J.nat (← J.field j "rows")) (← J.nat (← J.field j "cols"))
+    (← J.bool (← J.field j "offzero"))))
+
 def parseGivensOp (j : Json) : Except String (Option (Nat × Nat × Nat)) := do
   match j with
   | .str _ => .ok none
@@ -116,6 +120,7 @@ def handle (op : String) (j : Json) : Option (Except String Json) :=
   | "c14.occ" => some (occ j)
   | "c14.flips" => some (flips j)
   | "c14.split" => some (split j)
+  | "c14.spinblock" => some (spinBlock j)
   | "c14.givens" => some (givens j)
   | "c14.ffft" => some (ffft j)
   | _ => none
